@@ -559,10 +559,10 @@ func (g *nameGen) history() {
 			}
 		}
 	}
-	g.out.Count(fmt.Sprintf("final-records:%d", minInt(len(e.records()), 12)))
+	g.out.Count(fmt.Sprintf("final-records:%d", nameMinInt(len(e.records()), 12)))
 }
 
-func minInt(a, b int) int {
+func nameMinInt(a, b int) int {
 	if a < b {
 		return a
 	}
